@@ -989,6 +989,10 @@ fn oracle_c17(c: &InvCtx) -> Option<Violation> {
         if c.starts(&t).iter().any(|&s| s < idle) {
             continue;
         }
+        // (second invocation of an untouched tree: found up to date, which is progress as well)
+        if r.skips(&c.display(&t)).iter().any(|&s| s < idle) {
+            continue;
+        }
         let deps_ready = model::effective_deps(c.sc, &t).iter().all(|d| match model::kind_of(c.sc, d) {
             Some(Kind::Build) => c.build_ready_seqs(d).iter().any(|&s| s < idle),
             Some(Kind::Service) => c.starts(d).iter().any(|&s| s < idle),
@@ -1184,7 +1188,15 @@ impl Property for C17 {
         if inv.plan.events.is_empty() {
             inv.plan.events.push(gen::signal_at_idle());
         }
-        sc.steps.push(Step::Invoke(inv));
+        // half of the cases with gated command captures are run twice over the untouched tree:
+        // the second time every member has a record and its up-to-date check is what waits for
+        // the commands - all members' checks have to be in progress together
+        let again = inv.plan.gates.contains_key("C") && !watch_variant && inv.hash_seed % 2 == 0;
+        sc.steps.push(Step::Invoke(inv.clone()));
+        if again {
+            inv.hash_seed += 1;
+            sc.steps.push(Step::Invoke(inv));
+        }
         sc
     }
     fn evaluate(&self, sc: &Scenario, root: &Path, stats: &mut Stats) -> Option<Violation> {
